@@ -161,7 +161,8 @@ func universalTagOf(t reflect.Type, params fieldParameters) (uint64, bool) {
 // memberMatches reports whether an element with the given header is the encoding of a struct member.
 func memberMatches(t reflect.Type, params fieldParameters, tal tagAndLen) bool {
 	if params.tagNumber != nil {
-		return *params.tagNumber == tal.tagNumber
+		// a context tag and a universal tag may carry the same number
+		return tal.class == ClassContextSpecific && *params.tagNumber == tal.tagNumber
 	}
 	for t.Kind() == reflect.Ptr {
 		t = t.Elem()
